@@ -48,6 +48,8 @@ type Config struct {
 	KeyPool                   []string
 	SrcFor                    func(stage string) (lang, src string)
 	// Only types whose literals the probe can shape.
+	// Wide map literals (9..WideMaps keys) to expose unsorted traversals.
+	WideMaps     int
 	NoUntypedMap bool
 	TopMap       int // percent: top-level call is a map call
 	BigInts      bool
@@ -209,6 +211,9 @@ func (g *gen) genString() string {
 
 func (g *gen) genKeys() []string {
 	n := g.r.Intn(4)
+	if g.cfg.WideMaps > 9 && g.pct(60) {
+		n = 9 + g.r.Intn(g.cfg.WideMaps-8)
+	}
 	if n > len(g.cfg.KeyPool) {
 		n = len(g.cfg.KeyPool)
 	}
